@@ -45,7 +45,7 @@ manifest = {
         "kind_free_text": "Lean 4 theorems about executable models (lean/MvModel, lean/MvProps) tied to /repo by source translators (tools/gen) and a differential harness (harness/src/bin) that runs model driver and real code on the same inputs",
     }],
     "checks": checks,
-    "notes": "See DESIGN.md. Every check: translators -> lake build (theorems re-checked, #print axioms audit) -> cargo build harness against /repo's working tree with --cfg memvid_verif -> correspondence + property oracle -> evidence.",
+    "notes": "See DESIGN.md. Every check: translators -> lake build (theorems re-checked, #print axioms audit) -> cargo build harness against /repo's working tree with --cfg memvid_verif -> correspondence + property oracle -> evidence. Measured cost (16 cores): setup ~12 min cold; quick tier 6 s - 4.5 min per check (all 42, four in parallel: ~25 min); thorough tier (adds leanchecker and larger generators) 1-27 min per check, except C22 (~30-50 min) and C20 (exhaustive single-byte fault sweep: hours, limit 8 h). Seeded changes and which check catches which: DESIGN.md Appendix A2 and seeded/*/meta.json.",
     "not_applicable": [{"property_id": p, "reason": na.get(p, "machinery not built yet (work in progress; DESIGN.md section 10 gives the order)")} for p in props if p not in claimed],
 }
 json.dump(manifest, open(f"{V}/MANIFEST.json", "w"), indent=1)
